@@ -550,7 +550,11 @@ func dischargeAll(q *Query, outDir string, timeoutS int, confirm bool, workers i
 			file := filepath.Join(outDir, fmt.Sprintf("%s.smt2", sanitizeFile(o.Name)))
 			os.WriteFile(file, []byte(q.render(o, true, nil)), 0o644)
 			o.File = file
-			res, _ := solveRace(file, timeoutS, confirm && !o.ExpectSat)
+			to := timeoutS
+			if o.ExpectSat && to > 3 {
+				to = 3
+			}
+			res, _ := solveRace(file, to, confirm && !o.ExpectSat)
 			o.Status, o.Solver, o.Time = res.status, res.solver, res.secs
 			if res.status == "sat" || res.status == "unknown" || res.status == "timeout" || res.status == "error" || res.status == "disagree" {
 				o.Model = res.out
